@@ -773,7 +773,7 @@ def replay_models(ctx, cases, tier):
     for (N, dx, T) in heat_requests(tier):
         check_heat(ctx, table, N, dx, T, stats)
     ctx.observe("heat_cases", {"matched": stats["matched"], "skipped": stats["skipped"], "r_K": sorted(stats["rk"])})
-    if stats["matched"] == 0:
+    if stats["matched"] == 0 and not ctx.violations:
         raise MachineryError("no Heat1D construction matched an emitted (r, K) case - nothing compared")
     return kinds
 
@@ -792,7 +792,7 @@ def replay_problems(ctx, probs):
             ctx.mismatch("deconv1d_legacy/matrix/n=%d/psf=%s" % lk, {"kind": "legacy", "n": lk[0], "psfname": lk[1]},
                          "legacy operator matches neither orientation variant of the specification")
     for p in ("Deconvolution1D", "Deconvolution1D_legacy", "Deconvolution2D", "Heat1D", "Poisson1D", "Abel1D", "WangCubic"):
-        if not per.get(p):
+        if not per.get(p) and not ctx.violations:
             raise MachineryError("no behaviour of %s was replayed" % p)
     return done
 
